@@ -1,12 +1,22 @@
 import SpecterModel.C41.Model
+import SpecterModel.C41.Explore
+import SpecterModel.C41.ExploreLateP
+import SpecterModel.C41.ExploreLateQ
 /-!
 # C41 — simultaneous peer connections and the shared cached connection
 
 The protocol model of `Model.lean` instantiated with the decision table GENERATED from `overlay/reuse.go`
 (`Gen.lean`). All theorems quantify over ALL lists of step labels (`run` skips labels that are not enabled), i.e.
-over all interleavings of the (two or four) concurrent negotiations and the reaps, and over all consistent
-pre-existing cache states `preStates`. They are proved by an exhaustive exploration evaluated by the kernel
-(`explore … = true` by `decide`) and lifted to arbitrary schedules by `explore_sound`.
+over all interleavings of the (two or four) concurrent negotiations and the reaps, over all consistent
+pre-existing cache states `preStates`, and over the stale-reap scenarios `lateConfigs` (no stale reap, or ONE stale
+`reapPeer` — a second reap of an older, long dead connection — at P or at Q, at any point of the schedule). They are
+proved by an exhaustive exploration evaluated by the kernel (`explore … = true` by `decide`, modules `Explore`,
+`ExploreLateP`, `ExploreLateQ`) and lifted to arbitrary schedules by `explore_sound`.
+
+What `reapPeer` does with the entry that is cached when it runs is GENERATED from `overlay/reaper.go`
+(`Gen.C41.reap`): `reap_evicts_only_what_it_closes` is the local fact the stale-reap theorems rest on, and
+`evictOnlyTable` shows that without it (`reapPeer` deleting the entry but closing only the connection that triggered
+the reap) `cache_new_only_if_peer_does` fails after a stale reap.
 
 RESULT. `no_split_brain` and `cache_new_only_if_peer_does` hold in every final state. "A reused connection is
 never closed by the negotiation" holds for a single dial (`reused_never_closed_single`), and for a
@@ -25,6 +35,7 @@ theorem fB_eq (b : Bool) (k : Bool → α) : fB b k = k b := by cases b <;> rfl
 theorem fDir_eq (d : Dir) (k : Dir → α) : fDir d k = k d := by cases d <;> rfl
 theorem fCState_eq (cs : CState) (k : CState → α) : fCState cs k = k cs := by cases cs <;> rfl
 theorem fConn_eq (x : Conn) (k : Conn → α) : fConn x k = k x := by cases x <;> rfl
+theorem fCl_eq (x : Cl) (k : Cl → α) : fCl x k = k x := by cases x <;> rfl
 theorem fEntry_eq (e : Entry) (k : Entry → α) : fEntry e k = k e := by
   cases e with
   | none => rfl
@@ -39,11 +50,40 @@ theorem fRes_eq (r : Res) (k : Res → α) : fRes r k = k r := by
 theorem fPC_eq (p : PC) (k : PC → α) : fPC p k = k p := by
   cases p <;> simp [fPC, fEntry_eq, fStatus_eq, fRes_eq, fB_eq]
 theorem fSt_eq (s : St) (k : St → α) : fSt s k = k s := by
-  simp [fSt, fB_eq, fEntry_eq, fPC_eq]
+  simp [fSt, fB_eq, fEntry_eq, fPC_eq, fCl_eq]
 end force
 
 theorem mem_allSteps (e : Step) : e ∈ allSteps := by
   cases e <;> rename_i i <;> cases i <;> decide
+
+theorem filter_allSteps (s : St) :
+    allSteps.filter (enabled s) = ownSteps.filter (enabled s) ++ lateSteps.filter (enabled s) := by
+  simp [allSteps, List.filter_append]
+
+/-- one level of `explore`: `prop` holds if the state is final, and the exploration continues after every
+enabled step -/
+theorem explore_succ (T : Table) (prop : St → Bool) (n : Nat) (s : St) (h : explore T prop (n+1) s = true) :
+    (final s = true → prop s = true) ∧
+    ∀ e, enabled s e = true → explore T prop n (step T s e) = true := by
+  have hmem : ∀ e, enabled s e = true →
+      e ∈ ownSteps.filter (enabled s) ++ lateSteps.filter (enabled s) := fun e he => by
+    rw [← filter_allSteps]; exact List.mem_filter.mpr ⟨mem_allSteps e, he⟩
+  simp only [explore] at h
+  split at h
+  · rename_i hnil
+    simp only [Bool.and_eq_true, List.all_eq_true] at h
+    refine ⟨fun _ => h.1, fun e he => ?_⟩
+    have hm := hmem e he
+    rw [hnil, List.nil_append] at hm
+    have := h.2 e hm
+    rwa [fSt_eq] at this
+  · rename_i hne
+    refine ⟨fun hf => ?_, fun e he => ?_⟩
+    · exfalso
+      apply hne
+      simpa [final] using hf
+    · have := List.all_eq_true.mp h e (hmem e he)
+      rwa [fSt_eq] at this
 
 /-- **Lifting lemma.** If the exhaustive exploration from `s` succeeds, then for EVERY list of step labels the
 run from `s` that ends in a final state satisfies `prop`. -/
@@ -54,97 +94,115 @@ theorem explore_sound (T : Table) (prop : St → Bool) : ∀ (l : List Step) (n 
   | nil =>
     intro n s h hf
     simp only [run] at hf ⊢
-    have hnil : allSteps.filter (enabled s) = [] := by simpa [final] using hf
     cases n with
     | zero => simp [explore] at h; exact h.2
-    | succ n => simp only [explore, hnil] at h; exact h
+    | succ n => exact (explore_succ T prop n s h).1 hf
   | cons e l ih =>
     intro n s h hf
     simp only [run] at hf ⊢
     by_cases he : enabled s e = true
     · simp only [he, if_true] at hf ⊢
-      have hmem : e ∈ allSteps.filter (enabled s) := List.mem_filter.mpr ⟨mem_allSteps e, he⟩
       cases n with
       | zero =>
-        simp [explore, final] at h
+        simp [explore] at h
         have := h.1 e (mem_allSteps e)
         rw [he] at this; exact absurd this (by simp)
-      | succ n =>
-        simp only [explore] at h
-        split at h
-        · rename_i hnil; rw [hnil] at hmem; exact absurd hmem (by simp)
-        · have := List.all_eq_true.mp h e hmem
-          rw [fSt_eq] at this
-          exact ih n _ this hf
+      | succ n => exact ih n _ ((explore_succ T prop n s h).2 e he) hf
     · simp only [he, if_false, Bool.false_eq_true] at hf ⊢
       exact ih n s h hf
 
-/-! ### the exhaustive explorations (kernel-evaluated) over the generated table -/
+/-! ### from the exhaustive explorations (modules `Explore`, `ExploreLateP`, `ExploreLateQ`) to the theorems -/
 
-theorem explore_single : ∀ pre ∈ preStates, explore genTable goodStrict 12 (init false pre) = true := by
-  decide +kernel
-set_option maxRecDepth 100000 in
-theorem explore_dual : ∀ pre ∈ preStates, explore genTable good 12 (init true pre) = true := by
-  decide +kernel
-set_option maxRecDepth 100000 in
-theorem explore_dual_cached : ∀ pre ∈ preStates, pre ≠ (none, none) →
-    explore genTable goodStrict 12 (init true pre) = true := by
-  decide +kernel
+theorem goodStrict_good (s : St) (h : goodStrict s = true) : good s = true := by
+  simp only [goodStrict, Bool.and_eq_true] at h
+  simp [good, h.1.1, h.1.2, h.2]
 
-theorem good_of (dual : Bool) (pre : Entry × Entry) (hp : pre ∈ preStates) (l : List Step)
-    (hf : final (run genTable (init dual pre) l) = true) : good (run genTable (init dual pre) l) = true := by
+theorem goodFor_good (pre : Entry × Entry) (s : St) (h : goodFor pre s = true) : good s = true := by
+  unfold goodFor at h
+  split at h
+  · exact h
+  · exact goodStrict_good s h
+
+theorem mem_lateConfigs (late : Bool × Bool) (h : late ∈ lateConfigs) :
+    late = (false, false) ∨ late = (true, false) ∨ late = (false, true) := by
+  simpa [lateConfigs] using h
+
+theorem good_of (dual : Bool) (pre : Entry × Entry) (hp : pre ∈ preStates) (late : Bool × Bool)
+    (hl : late ∈ lateConfigs) (l : List Step)
+    (hf : final (run genTable (init dual pre late) l) = true) : good (run genTable (init dual pre late) l) = true := by
   cases dual with
-  | true => exact explore_sound _ _ l 12 _ (explore_dual pre hp) hf
-  | false =>
-    have := explore_sound _ _ l 12 _ (explore_single pre hp) hf
-    simp only [goodStrict, Bool.and_eq_true] at this
-    simp [good, this.1.1, this.1.2, this.2]
+  | false => exact goodStrict_good _ (explore_sound _ _ l 18 _ (explore_single late hl pre hp) hf)
+  | true =>
+    rcases mem_lateConfigs late hl with h | h | h <;> subst h
+    · exact goodFor_good pre _ (explore_sound _ _ l 18 _ (explore_dual pre hp) hf)
+    · exact explore_sound _ _ l 18 _ (explore_dual_lateP pre hp) hf
+    · exact explore_sound _ _ l 18 _ (explore_dual_lateQ pre hp) hf
 
 /-- **no_split_brain.** After any interleaving of one dial or of two simultaneous dials (with the reaps that
-follow closed stored connections), from any consistent pre-existing cache state: if both peers cache a
-connection for each other, it is the same connection. -/
-theorem no_split_brain (dual : Bool) (pre : Entry × Entry) (hp : pre ∈ preStates) (l : List Step)
-    (hf : final (run genTable (init dual pre) l) = true) :
-    noSplitBrain (run genTable (init dual pre) l) = true := by
-  have := good_of dual pre hp l hf
+follow closed stored connections, and possibly one stale reap at either side at any point), from any consistent
+pre-existing cache state: if both peers cache a connection for each other, it is the same connection. -/
+theorem no_split_brain (dual : Bool) (pre : Entry × Entry) (hp : pre ∈ preStates) (late : Bool × Bool)
+    (hl : late ∈ lateConfigs) (l : List Step)
+    (hf : final (run genTable (init dual pre late) l) = true) :
+    noSplitBrain (run genTable (init dual pre late) l) = true := by
+  have := good_of dual pre hp late hl l hf
   simp only [good, Bool.and_eq_true] at this
   exact this.1.1
 
 /-- **cache_new_only_if_peer_does.** In every final state a peer caches a new connection (`c` or `d`) only if
-the other peer caches the same connection. -/
-theorem cache_new_only_if_peer_does (dual : Bool) (pre : Entry × Entry) (hp : pre ∈ preStates) (l : List Step)
-    (hf : final (run genTable (init dual pre) l) = true) :
-    newOnlyIfPeer (run genTable (init dual pre) l) = true := by
-  have := good_of dual pre hp l hf
+the other peer caches the same connection — also after a stale reap: when `reapPeer` runs for an older dead
+connection and evicts the live new connection from one cache, the other peer's cache loses it as well (the evicted
+connection is closed, the other side's close-watcher reaps it). -/
+theorem cache_new_only_if_peer_does (dual : Bool) (pre : Entry × Entry) (hp : pre ∈ preStates)
+    (late : Bool × Bool) (hl : late ∈ lateConfigs) (l : List Step)
+    (hf : final (run genTable (init dual pre late) l) = true) :
+    newOnlyIfPeer (run genTable (init dual pre late) l) = true := by
+  have := good_of dual pre hp late hl l hf
   simp only [good, Bool.and_eq_true] at this
   exact this.1.2
 
 /-- **reused_never_closed_single.** With a single dial, no connection handed back as "reused" is closed by the
-negotiation. -/
-theorem reused_never_closed_single (pre : Entry × Entry) (hp : pre ∈ preStates) (l : List Step)
-    (hf : final (run genTable (init false pre) l) = true) :
-    reusedNotClosed (run genTable (init false pre) l) = true := by
-  have := explore_sound _ _ l 12 _ (explore_single pre hp) hf
+negotiation (with or without a stale reap). -/
+theorem reused_never_closed_single (pre : Entry × Entry) (hp : pre ∈ preStates) (late : Bool × Bool)
+    (hl : late ∈ lateConfigs) (l : List Step)
+    (hf : final (run genTable (init false pre late) l) = true) :
+    reusedNotClosed (run genTable (init false pre late) l) = true := by
+  have := explore_sound _ _ l 18 _ (explore_single late hl pre hp) hf
   simp only [goodStrict, Bool.and_eq_true] at this
   exact this.2
 
-/-- **reused_never_closed_cached.** With two simultaneous dials, if at least one peer already holds a cached
-connection, no reused connection is closed. -/
+/-- **reused_never_closed_cached.** With two simultaneous dials and no stale reap, if at least one peer already
+holds a cached connection, no reused connection is closed. (With a stale reap this is false: the stale reap can
+empty the caches before the dials start, which is the simultaneous open from empty caches again.) -/
 theorem reused_never_closed_cached (pre : Entry × Entry) (hp : pre ∈ preStates) (hne : pre ≠ (none, none))
     (l : List Step) (hf : final (run genTable (init true pre) l) = true) :
     reusedNotClosed (run genTable (init true pre) l) = true := by
-  have := explore_sound _ _ l 12 _ (explore_dual_cached pre hp hne) hf
+  have := explore_sound _ _ l 18 _ (explore_dual pre hp) hf
+  have hs : goodFor pre = goodStrict := by
+    unfold goodFor
+    split
+    · exact absurd rfl hne
+    · rfl
+  rw [hs] at this
   simp only [goodStrict, Bool.and_eq_true] at this
   exact this.2
 
 /-- **reused_never_closed_unless_cross.** In general a reused connection can be closed only in a
 simultaneous-open cross store (both peers stored a fresh connection, and not the same one). -/
-theorem reused_never_closed_unless_cross (dual : Bool) (pre : Entry × Entry) (hp : pre ∈ preStates) (l : List Step)
-    (hf : final (run genTable (init dual pre) l) = true) :
-    reusedNotClosed (run genTable (init dual pre) l) = true ∨ crossStore (run genTable (init dual pre) l) = true := by
-  have := good_of dual pre hp l hf
+theorem reused_never_closed_unless_cross (dual : Bool) (pre : Entry × Entry) (hp : pre ∈ preStates)
+    (late : Bool × Bool) (hl : late ∈ lateConfigs) (l : List Step)
+    (hf : final (run genTable (init dual pre late) l) = true) :
+    reusedNotClosed (run genTable (init dual pre late) l) = true ∨
+      crossStore (run genTable (init dual pre late) l) = true := by
+  have := good_of dual pre hp late hl l hf
   simp only [good, Bool.and_eq_true, Bool.or_eq_true] at this
   exact this.2
+
+/-- **reap_evicts_only_what_it_closes** (the extracted facts of `reapPeer`): when an entry is cached for the peer,
+`reapPeer` removes it from the cache and closes ITS connection — whichever connection triggered the reap. This is
+what makes a stale reap harmless: the other peer learns that the evicted connection is gone. -/
+theorem reap_evicts_only_what_it_closes :
+    (Gen.C41.reap true).del = true ∧ (Gen.C41.reap true).closeCached = true := by decide
 
 /-- The violating schedule: all four ends take their snapshot (nothing cached), P's outgoing end stores `c`,
 Q's outgoing end stores `d`, then P's incoming end finds `c`, closes `d` and returns `c` as reused, and Q's
@@ -190,7 +248,7 @@ def incomingOnlyTable : Table :=
   ⟨Gen.C41.snapshot, fun ps pd cached cdir dir rc rcdir =>
     match ps, pd, cached, dir, rc, rcdir with
     | .fresh, .outgoing, false, .incoming, true, .outgoing => Gen.C41.decide ps pd cached cdir dir false rcdir
-    | _, _, _, _, _, _ => Gen.C41.decide ps pd cached cdir dir rc rcdir⟩
+    | _, _, _, _, _, _ => Gen.C41.decide ps pd cached cdir dir rc rcdir, Gen.C41.reap⟩
 
 def overwriteSchedule : List Step :=
   [.snap .Pc, .snap .Qc, .snap .Qd, .snap .Pd, .dec .Pc, .dec .Qc, .dec .Qd, .dec .Pd]
@@ -203,5 +261,35 @@ example : let s := run incomingOnlyTable (init true (none, none)) (overwriteSche
 /-- the same schedule over the generated table converges on `c` -/
 example : let s := run genTable (init true (none, none)) overwriteSchedule
     final s = true ∧ s.cached .P = some .c ∧ s.cached .Q = some .c ∧ good s = true := by decide
+
+/-! ### stale reaps: non-vacuity and sensitivity -/
+
+/-- the seeded situation: both peers cache the new connection `c`, then a stale reap runs at P. With the
+generated facts `c` is closed and evicted at P, Q's close-watcher reaps it: both caches end empty. -/
+example : let s := run genTable (init false (none, none) (true, false)) [.snap .Pc, .snap .Qc, .dec .Pc, .dec .Qc, .late .P]
+    final s = false ∧ s.cached .P = none ∧ s.cached .Q = some .c ∧ s.cl .c = .late := by decide
+def staleAfterConvergence : List Step :=
+  [.snap .Pc, .snap .Qc, .dec .Pc, .dec .Qc, .late .P, .reap .Qc, .reap .Pc]
+example : let s := run genTable (init false (none, none) (true, false)) staleAfterConvergence
+    final s = true ∧ s.cached .P = none ∧ s.cached .Q = none ∧ good s = true := by decide
+/-- a stale reap in the middle of a simultaneous open that hits the pre-existing connection -/
+def staleInTheMiddle : List Step :=
+  [.snap .Pc, .snap .Qd, .late .Q, .snap .Qc, .snap .Pd, .reapE .P, .dec .Pc, .dec .Qc, .dec .Qd, .dec .Pd, .reapE .Q]
+example : let s := run genTable (init true (some (.e, .outgoing), some (.e, .incoming)) (false, true)) staleInTheMiddle
+    final s = true ∧ s.cl .e = .late ∧ good s = true := by decide
+example : (true, false) ∈ lateConfigs ∧ (false, true) ∈ lateConfigs := by decide
+
+/-- the generated table, except that `reapPeer` only deletes the cached entry and closes the connection that
+triggered the reap (it assumes that the cached connection IS that connection) -/
+def evictOnlyTable : Table :=
+  ⟨Gen.C41.snapshot, Gen.C41.decide, fun _ => { del := true, closeCached := false, closeTrigger := true }⟩
+
+/-- … then the stale reap evicts the live `c` at P silently, Q keeps caching it: the state is final and
+`cache_new_only_if_peer_does` fails (Q caches the new connection `c`, P caches nothing) -/
+example : let s := run evictOnlyTable (init false (none, none) (true, false)) [.snap .Pc, .snap .Qc, .dec .Pc, .dec .Qc, .late .P]
+    final s = true ∧ s.cached .P = none ∧ s.cached .Q = some .c ∧ s.closed .c = false ∧
+    newOnlyIfPeer s = false := by decide
+/-- ordinary schedules (every connection reaped once) do not tell the two tables apart -/
+example : explore evictOnlyTable goodStrict 18 (init false (none, none)) = true := by decide +kernel
 
 end Specter.C41
